@@ -326,8 +326,30 @@ def c08_d(ctx: Ctx):
                             "cache with itself, never rewrites a stale file and reports 'up to date'"))
     else:
         upd = [c for c in body_nodes(rc) if isinstance(c, ast.Call) and isinstance(c.func, ast.Attribute) and c.func.attr == "update" and _is_cache(c.func.value)]
+        # dict-union spellings: self._sp_cache = self._sp_cache | cache / {**self._sp_cache, **cache} / self._sp_cache |= cache  (right operand wins)
+        kprec = rc.qual + "|file-content-wins"
+        unions = []
+        for n in body_nodes(rc):
+            if isinstance(n, ast.Assign) and any(_is_cache(t) for t in n.targets):
+                v = n.value
+                if isinstance(v, ast.BinOp) and isinstance(v.op, ast.BitOr):
+                    unions.append((n, "mem-left" if _is_cache(v.left) else ("mem-right" if _is_cache(v.right) else "?")))
+                elif isinstance(v, ast.Dict) and all(k is None for k in v.keys) and len(v.values) == 2:
+                    unions.append((n, "mem-left" if _is_cache(v.values[0]) else ("mem-right" if _is_cache(v.values[1]) else "?")))
+            elif isinstance(n, ast.AugAssign) and isinstance(n.op, ast.BitOr) and _is_cache(n.target):
+                unions.append((n, "mem-left"))
+        rev = [c for c in body_nodes(rc) if isinstance(c, ast.Call) and isinstance(c.func, ast.Attribute) and c.func.attr == "update" and c.args and _is_cache(c.args[0])
+               and canon(c.func.value) in rnames]
         if upd:
             out.append(ctx.ok(R, rc, upd[0], "the file content is merged into the in-memory cache with update(); the returned snapshot stays a separate object"))
+            out.append(ctx.ok(R, rc, upd[0], "entries read from the cache file override entries already in memory", construct=kprec))
+        elif unions and all(w == "mem-left" for _n, w in unions):
+            out.append(ctx.ok(R, rc, unions[0][0], "the file content is merged over the in-memory cache (right operand of the union wins)", construct=kprec))
+        elif (unions and any(w == "mem-right" for _n, w in unions)) or rev:
+            n0 = [n for n, w in unions if w == "mem-right"][0] if unions else rev[0]
+            out.append(ctx.viol(R, rc, n0, f"`{stmt_key(n0, 50)}` lets entries already in memory win over the cache file: repair() re-reads the file precisely so that the persistent cache "
+                                "overrides what an unvalidated look-up (_get_statepoint(validate=False)) put into memory for a damaged job; with this precedence the foreign state point survives "
+                                "and a later repair() keeps failing although the cache knows the right one", construct=kprec))
         else:
             out.append(ctx.inc(R, rc, rc.node, "_read_cache does not merge the file content with update()"))
     st = ctx.fn("signac.job:Job.statepoint.setter")
@@ -395,8 +417,8 @@ def c08_e(ctx: Ctx):
 @rule("C08-f")
 def c08_f(ctx: Ctx):
     """Per-job / per-entry loops are independent: nothing read in one iteration was computed in another."""
-    from .lints import per_item_loops
-    return per_item_loops(ctx, "C08-f", [('signac.project:Project._update_in_memory_cache', 'an id is cached with the state point read for another id'), ('signac.project:Project.update_cache', "the persistent cache receives another job's data"), ('signac.project:Project._read_cache', 'cache content of another read is reused')])
+    from .lints import per_item_loops, sequence_arguments
+    return sequence_arguments(ctx, "C08-f", ("signac.project", "signac._utility")) + per_item_loops(ctx, "C08-f", [('signac.project:Project._update_in_memory_cache', 'an id is cached with the state point read for another id'), ('signac.project:Project.update_cache', "the persistent cache receives another job's data"), ('signac.project:Project._read_cache', 'cache content of another read is reused')])
 
 
 @rule("C08-g")
